@@ -138,6 +138,10 @@ def run(ctx):
         tasks = [(cases[j], int(ctx.seed * 1000003 + j), 1 if ctx.tier == 'quick' else 2) for j in order[:per]]
         common.pmap(ctx, _worker, tasks)
         replay_add_many(ctx, [cases[j] for j in order], rng, 150 if ctx.tier == 'quick' else 1500)
+    # stabilised rounding of tensors whose accumulated exponent is outside the double range (every core times 2^450 / 2^-150;
+    # d = 3, 4): the exact thresholds of the same Rounding cases, compared through normalised Gram chains
+    from . import c16
+    c16.replay_rounding_stab(ctx, np.random.default_rng(ctx.seed + 13), ctx.tier == 'quick', count=150 if ctx.tier == 'quick' else 2000)
     # add_many as a behaviour of AddMany.tla: exhaustive small scope + simulated larger scopes
     from . import tlc
     quick = ctx.tier == 'quick'
